@@ -230,6 +230,11 @@ func baseIntrinsics() map[string]intrinsicFn {
 		m["("+dv+"TimeLog)."+n] = nop
 		m["(*"+dv+"TimeLog)."+n] = nop
 	}
+	// progress statistics of copy/transfer code (time and floating point; no functional effect)
+	m["(*github.com/janelia-flyem/dvid/datastore.txStats).addKV"] = nop
+	m["(*github.com/janelia-flyem/dvid/datastore.txStats).printStats"] = nop
+	m["github.com/dustin/go-humanize.Bytes"] = func(in *Interp, fn *ssa.Function, args []Value) Value { return in.strConst("n B") }
+	m["github.com/dustin/go-humanize.Comma"] = func(in *Interp, fn *ssa.Function, args []Value) Value { return in.strConst("n") }
 	m[dv+"NewUUID"] = func(in *Interp, fn *ssa.Function, args []Value) Value {
 		in.freshSeq++
 		return in.strConst(fmt.Sprintf("%032x", 0xf0000000+in.freshSeq))
@@ -246,10 +251,10 @@ func baseIntrinsics() map[string]intrinsicFn {
 		"(*sync.WaitGroup).Add", "(*sync.WaitGroup).Done", "(*sync.WaitGroup).Wait"} {
 		name := n
 		m[name] = func(in *Interp, fn *ssa.Function, args []Value) Value {
-			if in.sched != nil {
-				return in.schedSync(name, args)
+			if in.pristineMode {
+				return TupleV{}
 			}
-			return TupleV{}
+			return in.schedSync(name, args)
 		}
 	}
 	m["(*sync.Once).Do"] = func(in *Interp, fn *ssa.Function, args []Value) Value {
